@@ -35,6 +35,9 @@ def cases(tier, seed):
     for n, d, io, bias in itertools.product(nf, dg, (False, True), (False, True)):
         out.append({"gen": "cfg", "id": "n%d-d%d-io%d-b%d" % (n, d, io, bias), "n": n, "d": d,
                     "io": io, "bias": bias, "seed": seed})
+    # degree 0 with the bias column (the constant model: PolynomialFeatures accepts it, one column of ones)
+    for n, io in itertools.product((1, 3, 5), (False, True)):
+        out.append({"gen": "cfg", "id": "n%d-d0-io%d-b1" % (n, io), "n": n, "d": 0, "io": io, "bias": True, "seed": seed})
     for n, d, io, bias in ((11, 2, False, True), (12, 2, True, False), (13, 2, False, False), (11, 3, True, True)):
         out.append({"gen": "cfg", "id": "wide-n%d-d%d-io%d-b%d" % (n, d, io, bias), "n": n, "d": d, "io": io,
                     "bias": bias, "seed": seed})
@@ -92,6 +95,8 @@ class Shadow:
             E[0] = 0
             written[0] = True
             pos = 1
+        if n_out == pos and self.cfg.get("degree") == 0:
+            return E        # degree 0: the constant column is the whole table
         if n_out < pos + n_features or not numpy.array_equal(XP[:, pos:pos + n_features], X):
             ctx.violation(K + "degree-1-block", "the degree-1 block is not a copy of X", cfg=cfg)
             return None
